@@ -856,17 +856,92 @@ fn gen_op(rng: &mut Rng, n: usize, nid: usize, seclen: usize, allow_empty: bool,
     }
 }
 
+/// the generator's own table of readers: the state changes of a history, executed on a real
+/// reader as the history is generated, so that most operations address a live reader
+struct GenTable {
+    rs: Vec<Option<EndianRcSlice<RunTimeEndian>>>,
+    nid: usize,
+}
+impl GenTable {
+    fn live(&self) -> Vec<usize> {
+        (0..self.rs.len()).filter(|i| self.rs[*i].is_some()).collect()
+    }
+    fn apply(&mut self, op: &Op) {
+        let (i, j) = op.readers();
+        if self.rs.get(i).map_or(true, |r| r.is_none()) || j.map_or(false, |j| self.rs.get(j).map_or(true, |r| r.is_none())) {
+            return;
+        }
+        let mut newr = None;
+        {
+            let r = self.rs[i].as_mut().unwrap();
+            match *op {
+                Op::Fixed(_, n) | Op::Signed(_, n) | Op::Float(_, n) => {
+                    let _ = r.skip(n as usize);
+                }
+                Op::Uint(_, n) if n <= 8 => {
+                    let _ = r.read_uint(n);
+                }
+                Op::Slice(_, n) | Op::Skip(_, n) => {
+                    let _ = r.skip(n);
+                }
+                Op::Split(_, n) => newr = r.split(n).ok(),
+                Op::Trunc(_, n) => {
+                    let _ = r.truncate(n);
+                }
+                Op::Empty(_) => r.empty(),
+                Op::Clone(_) => newr = Some(r.clone()),
+                Op::OffId(_) => self.nid += 1,
+                Op::Nts(_) => newr = r.read_null_terminated_slice().ok(),
+                Op::Uleb(_) => {
+                    let _ = r.read_uleb128();
+                }
+                Op::Sleb(_) => {
+                    let _ = r.read_sleb128();
+                }
+                Op::Uleb32(_) => {
+                    let _ = r.read_uleb128_u32();
+                }
+                Op::Uleb16(_) => {
+                    let _ = r.read_uleb128_u16();
+                }
+                Op::SkipLeb(_) => {
+                    let _ = r.skip_leb128();
+                }
+                Op::InitLen(_) => {
+                    let _ = r.read_initial_length();
+                }
+                Op::AddrSize(_) => {
+                    let _ = r.read_address_size();
+                }
+                Op::Addr(_, n) => {
+                    let _ = r.read_address(n);
+                }
+                Op::Word(_, f) | Op::Offset(_, f) => {
+                    let _ = r.read_word(f);
+                }
+                Op::SizedOff(_, n) => {
+                    let _ = r.read_sized_offset(n);
+                }
+                _ => {}
+            }
+        }
+        if let Op::Drop(_) = op {
+            self.rs[i] = None;
+        }
+        if let Some(n) = newr {
+            self.rs.push(Some(n));
+        }
+    }
+}
+
 pub fn gen_history(rng: &mut Rng, sec: &[u8], nops: usize, allow_empty: bool, allow_panic: bool) -> String {
-    // the table of readers is tracked by running the prefix on a real reader, so that most
-    // operations address a live reader (a dead or missing index answers `bad` on both sides)
     let rc: Rc<[u8]> = Rc::from(sec);
+    let mut tab = GenTable { rs: vec![Some(EndianRcSlice::new(rc, RunTimeEndian::Little))], nid: 0 };
     let mut toks: Vec<String> = Vec::new();
-    let mut ops: Vec<Op> = Vec::new();
-    let mut live: Vec<usize> = vec![0];
-    let mut n = 1usize;
-    let mut nid = 0usize;
     for _ in 0..nops {
-        let mut t = gen_op(rng, n, nid, sec.len(), allow_empty, allow_panic);
+        let live = tab.live();
+        let n = tab.rs.len();
+        let mut t = gen_op(rng, n, tab.nid, sec.len(), allow_empty, allow_panic);
         // re-aim 9 of 10 operations that hit a dropped reader, and most drops of reader 0
         if let Some(op) = parse_op(&t) {
             let (i, _) = op.readers();
@@ -886,22 +961,7 @@ pub fn gen_history(rng: &mut Rng, sec: &[u8], nops: usize, allow_empty: bool, al
             }
         }
         if let Some(op) = parse_op(&t) {
-            ops.push(op);
-            let run = run_hist(EndianRcSlice::new(rc.clone(), RunTimeEndian::Little), &rc, &ops, None, None, false);
-            n = 1 + run.trace.iter().filter(|o| o.contains('>')).count();
-            live = (0..n).collect();
-            for (k, o) in ops.iter().enumerate() {
-                if let Op::Drop(i) = o {
-                    if run.trace[k] != "bad@~" {
-                        live.retain(|x| x != i);
-                    }
-                }
-            }
-            if let Op::OffId(_) = op {
-                if run.trace[ops.len() - 1] != "bad@~" {
-                    nid += 1;
-                }
-            }
+            tab.apply(&op);
         }
         toks.push(t);
     }
